@@ -336,6 +336,24 @@ func ruleC02_2(c *Ctx) {
 	detail := fmt.Sprintf("%d call sites", len(t2s))
 	if len(t2s) == 1 && homeFn(t2s[0].Fn) == dec && t2s[0].Call != nil {
 		arg := throughTuple(t2s[0].Call.Args[0])
+		// called from a constructor helper of Decode (`newRequestMsg(c, msg, n)`): what the helper's one call site passes
+		for i := 0; i < 3; i++ {
+			prm, isP := arg.(*ssa.Parameter)
+			if !isP || !p.isHelper(prm.Parent()) {
+				break
+			}
+			sites := p.helperSites(prm.Parent())
+			idx := -1
+			for k, q := range prm.Parent().Params {
+				if q == prm {
+					idx = k
+				}
+			}
+			if len(sites) != 1 || sites[0].Call == nil || idx < 0 || idx >= len(sites[0].Call.Args) {
+				break
+			}
+			arg = throughTuple(sites[0].Call.Args[idx])
+		}
 		if ex, ok := arg.(*ssa.Extract); ok && ex.Index == 0 {
 			if call, ok := p.isCallTo(ex.Tuple, parseLine); ok {
 				// it must be the first parseLine of the request: no other parseLine call (in Decode or its callees) can precede it
